@@ -196,14 +196,14 @@ def check_tree(acc, case, attrs, sizes, cliques, order, seed):
     return not bad
 
 
-def run_case(acc, k, edges, pres, sizes_name, order, seed):
+def run_case(acc, k, edges, pres, sizes_name, order, seed, naming='letters'):
     attrs = S.ATTRS[:k]
     sizes = S.sizes_for(sizes_name, k)
     cliques = S.present(attrs, edges, pres)
-    case = {'k': k, 'edges': edges, 'pres': pres, 'sizes': sizes_name, 'order': order, 'seed': seed}
-    acc.case({'c': cliques, 'o': order, 's': sizes_name}, nontrivial=len(edges) > 0)
+    case = {'k': k, 'edges': edges, 'pres': pres, 'sizes': sizes_name, 'order': order, 'seed': seed, 'naming': naming}
+    acc.case({'c': cliques, 'o': order, 's': sizes_name, 'n': naming}, nontrivial=len(edges) > 0)
     acc.traces += 1
-    check_tree(acc, case, attrs, sizes, cliques, order, seed)
+    check_tree(acc, case, S.rename(attrs, naming), sizes, S.rename(cliques, naming), S.rename(order, naming), seed)
 
 
 def run_job(job):
@@ -233,6 +233,8 @@ def run_job(job):
                     continue
                 for order in orders_for(attrs, job['orders']):
                     run_case(acc, k, edges, pres, sizes_name, order, seed)
+                    if sizes_name == 'main' and pres in ('edges', 'maximal') and k <= 5:
+                        run_case(acc, k, edges, pres, sizes_name, order, seed, naming='scrambled')
         acc.sample({'k': k, 'edges': edges, 'pres': 'maximal', 'cliques': S.present(attrs, edges, 'maximal'), 'order': attrs[::-1]})
     return acc
 
@@ -243,7 +245,7 @@ def replay(case):
         n, cl = large_families()[case['large']]
         check_tree(acc, case, S.ATTRS[:n], S.SIZES_MAIN[:n], cl, case['order'], case['seed'])
     else:
-        run_case(acc, case['k'], [tuple(e) for e in case['edges']], case['pres'], case['sizes'], case['order'], case['seed'])
+        run_case(acc, case['k'], [tuple(e) for e in case['edges']], case['pres'], case['sizes'], case['order'], case['seed'], case.get('naming', 'letters'))
     for v in acc.violations:
         print(v['msg'])
     return acc.violations
